@@ -301,10 +301,10 @@ def main():
     if not quick:
         shards = []
         for w, K in counts.items():
-            if K <= 80:
+            if K <= 160:
                 for k in range(1, K + 1):
                     shards.append((w, [k], list(range(k + 1, K + 1)), dl))
-        engine.phase(ck, 'pairs of failing requests for workloads with K <= 80', shard, shards)
+        engine.phase(ck, 'pairs of failing requests for workloads with K <= 160', shard, shards)
     ck.assumptions = ['only allocation requests issued by confuse.c count ("library source proper"); requests from the scanner file (flex runtime and the '
                       'string scratch buffer in lexer.l) are out of scope by the property\'s own text',
                       'setter-like calls without a failure value (callback / filter registration) are judged through the epilogue only']
